@@ -6,7 +6,11 @@ program of constructor / update / convert / | / + / to_render_args operations wh
 operands are earlier results, and after EVERY operation dumps every live RenderArgs object
 (type, render class, namespaces in iteration order, hash), the identity of the result
 (driver index = order of first appearance), `result == obj` for every object, `probe in
-result`, and the interning tables.
+result`, and the interning tables.  Namespace operands may be instances of SUBCLASSES of the
+associated namespace class (tag > 0); every namespace instance (operands, constituents of
+the live sets) is reported when first seen (render class, fields, tag of its class, hash)
+with `==` against every known instance, and again after the last operation together with
+the full `==` matrices of the namespace instances and of the sets.
 
 stmt / ctor / rend cases: one namespace class statement, one namespace constructor call,
 one render class statement; the outcome as an enum."""
@@ -66,6 +70,12 @@ class BadOperand(Exception):
     pass
 
 
+# namespace-class subclasses: tag 0 = the associated class itself (``C.Args``); tag t > 0 = a
+# subclass whose base is tag SUB_BASE[t] (a child, a grandchild, a second child)
+SUB_BASE = [None, 0, 1, 0]
+BAD_TAG = 99
+
+
 def run_prog(case):
     par, nsd = case["par"], case["nsd"]
     classes = [Renderable]
@@ -78,16 +88,45 @@ def run_prog(case):
     kinds = [RenderArgs] + [type(uniq(f"K{k}"), (RenderArgs,), {}) for k in range(1, case["nk"])]
     objs = []     # live RenderArgs objects in order of first appearance
     results = []  # per op: the object or None
-    pool = {}     # namespace instances already made, by value
+    pool = {}     # namespace instances already made, by (class, tag, value)
+    nscls = {}    # (class, tag) -> namespace class
+    nstag = {}    # namespace class -> tag
+    nsobjs = []   # live namespace instances in order of first appearance
+
+    def ns_class(c, tag):
+        """``classes[c].Args`` or one of its subclasses (fields and association inherited);
+        created with a plain class statement equivalent, through the metaclass"""
+        if (c, tag) not in nscls:
+            if tag == 0:
+                k = classes[c].Args
+            else:
+                base = ns_class(c, SUB_BASE[tag])
+                body = {"describe": lambda self: repr(self)} if tag % 2 else {}
+                k = AMeta(uniq(f"Sub{tag}Args"), (base,), body)
+                assert k.get_render_cls() is classes[c] and classes[c].Args is ns_class(c, 0)
+            nscls[(c, tag)] = k
+            nstag[k] = tag
+        return nscls[(c, tag)]
+
+    for c in range(len(par)):
+        if nsd[c] is not None:
+            ns_class(c, 0)
 
     def mkns(n, pres=0):
-        c, fields = n
-        key = (c, tuple(fields))
+        c, fields = n[0], n[1]
+        tag = n[2] if len(n) > 2 else 0
+        key = (c, tag, tuple(fields))
         if pres % 3 == 1 and key in pool:
             return pool[key]
-        if pres % 3 == 2 and list(fields) == list(nsd[c]):
+        if pres % 3 == 2 and tag == 0 and list(fields) == list(nsd[c]):
             return classes[c]._ALL_DEFAULT_ARGS[classes[c]] if pres % 2 else classes[c].Args()
-        inst = classes[c].Args(*fields)
+        K = ns_class(c, tag)
+        if pres % 3 == 2 and list(fields) == list(nsd[c]):
+            inst = K()
+        elif pres % 2 and fields:
+            inst = K(*fields[:-1], **{f"f{len(fields) - 1}": fields[-1]})
+        else:
+            inst = K(*fields)
         pool.setdefault(key, inst)
         return inst
 
@@ -96,13 +135,16 @@ def run_prog(case):
             raise BadOperand
         return results[v]
 
+    def ns_entry(ns):
+        return [clsidx[ns.get_render_cls()], list(ns.as_dict().values()), nstag.get(type(ns), BAD_TAG)]
+
     def dump():
         out = []
         for o in objs:
-            nss = [[clsidx[ns.get_render_cls()], list(ns.as_dict().values())] for ns in o]
+            nss = [ns_entry(ns) for ns in o]
             # the public item access must agree with iteration
-            for c, vals in nss:
-                assert list(o[classes[c]].as_dict().values()) == vals
+            for (c, vals, _), ns in zip(nss, o):
+                assert o[classes[c]] is ns
             out.append([kinds.index(type(o)), clsidx[o.render_cls], nss, hash(o)])
         return out
 
@@ -116,41 +158,70 @@ def run_prog(case):
                         out.append([k, clsidx[rc], j])
         return sorted(out)
 
-    def execute(o):
+    seen_ns = set()
+
+    def note_ns(ns, new):
+        if id(ns) not in seen_ns:
+            seen_ns.add(id(ns))
+            nsobjs.append(ns)   # kept alive: ids stay unique
+            new.append(ns)
+
+    def ns_rows(new):
+        """(instances first seen now, their == rows against every known instance)"""
+        for o in objs:
+            for ns in o:
+                note_ns(ns, new)
+        rows = []
+        for x in new:
+            row = []
+            for y in nsobjs:
+                e = x == y
+                assert (x != y) == (not e)
+                row.append(bool(e))
+            rows.append(row)
+        return [ns_entry(x) + [hash(x)] for x in new], rows
+
+    def execute(o, new):
         p = o.get("pres", 0)
         kind = o["op"]
+
+        def mk(n, pres):
+            inst = mkns(n, pres)
+            note_ns(inst, new)
+            return inst
         if kind == "new":
             K, cls = kinds[o["k"]], classes[o["cls"]]
-            nss = [mkns(n, p + i) for i, n in enumerate(o["nss"])]
+            nss = [mk(n, p + i) for i, n in enumerate(o["nss"])]
             if o["init"] is None:
                 return K(cls, None, *nss) if p % 2 else K(cls, *nss)
             return K(cls, var(o["init"]), *nss)
         if kind == "upd":
             x = var(o["x"])
-            return x.update(*[mkns(n, p + i) for i, n in enumerate(o["nss"])])
+            return x.update(*[mk(n, p + i) for i, n in enumerate(o["nss"])])
         if kind == "updf":
             x = var(o["x"])
             return x.update(classes[o["rc"]], **{f"f{j}": v for j, v in o["fields"]})
         if kind == "conv":
             return var(o["x"]).convert(classes[o["rc"]])
         if kind in ("or", "ror"):
-            a = mkns(o["a"], p)
-            b = mkns(o["b"]["ns"], p + 1) if "ns" in o["b"] else var(o["b"]["ra"])
+            a = mk(o["a"], p)
+            b = mk(o["b"]["ns"], p + 1) if "ns" in o["b"] else var(o["b"]["ra"])
             if kind == "or":
                 return a | b
             if "ra" in o["b"] and p % 2 == 0:
                 return b | a          # RenderArgs has no __or__: resolved by a.__ror__(b)
             return a.__ror__(b)
         if kind == "pos":
-            return +mkns(o["a"], p)
+            return +mk(o["a"], p)
         if kind == "to":
-            return mkns(o["a"], p).to_render_args(classes[o["rc"]])
+            return mk(o["a"], p).to_render_args(classes[o["rc"]])
         raise AssertionError(kind)
 
     obs = []
     for o, probes in zip(case["ops"], case["probes"]):
+        new = []
         try:
-            res = execute(o)
+            res = execute(o, new)
             code = None
         except BadOperand:
             res, code = None, 6
@@ -160,7 +231,9 @@ def run_prog(case):
             res, code = None, 91
         results.append(res)
         if res is None:
-            obs.append({"res": -1 - code, "dump": dump(), "eq": [], "in": [], "itn": interned()})
+            nsnew, nseq = ns_rows(new)
+            obs.append({"res": -1 - code, "dump": dump(), "eq": [], "in": [], "itn": interned(),
+                        "nsnew": nsnew, "nseq": nseq})
             continue
         j = next((i for i, x in enumerate(objs) if x is res), None)
         if j is None:
@@ -168,12 +241,22 @@ def run_prog(case):
             j = len(objs) - 1
         eq = []
         for x in objs:
-            e1, e2 = res == x, x == res
-            assert e1 == e2 and (res != x) == (not e1)
+            e1 = res == x
+            assert (res != x) == (not e1)
             eq.append(bool(e1))
         inn = [mkns(n) in res for n in probes]
-        obs.append({"res": j, "dump": dump(), "eq": eq, "in": inn, "itn": interned()})
-    return {"obs": obs}
+        nsnew, nseq = ns_rows(new)
+        obs.append({"res": j, "dump": dump(), "eq": eq, "in": inn, "itn": interned(),
+                    "nsnew": nsnew, "nseq": nseq})
+    # the end: every namespace instance again, both full == matrices; a namespace is never
+    # equal to a set of render arguments
+    for x in nsobjs:
+        for y in objs:
+            assert not (x == y) and not (y == x)
+    fin = {"ns": [ns_entry(x) + [hash(x)] for x in nsobjs],
+           "nseq": [[bool(x == y) for y in nsobjs] for x in nsobjs],
+           "eq": [[bool(x == y) for y in objs] for x in objs]}
+    return {"obs": obs, "fin": fin}
 
 
 # ------------------------------------------------------------ class statements
